@@ -103,6 +103,7 @@ func (e *Engine) enterBlock(st *State) ([]*State, bool) {
 	}
 	env := e.envFor(st, fr, nil)
 	env.header = fr.blk
+	env.preferCells = true
 	pos := nearestPos(fr.blk.Instrs[0])
 	if fr.inLoop[fr.blk] {
 		// back edge: invariant preserved
@@ -186,6 +187,7 @@ func (e *Engine) enterBlock(st *State) ([]*State, bool) {
 	// assume invariants (and the frame so far)
 	env = e.envFor(st, fr, nil)
 	env.header = fr.blk
+	env.preferCells = true
 	if ls != nil {
 		for _, c := range ls.Invariants {
 			st.assume(e.evalBool(env, c))
@@ -470,6 +472,7 @@ func (e *Engine) doCall(st *State, call *ssa.CallCommon, fnv Val, args []Val, de
 		for _, ac := range root.fc.AtCalls {
 			if ac.Kind == "assert" && ac.Callee == name {
 				env := e.envFor(st, root, nil)
+				env.preferCells = true
 				for i, p := range params {
 					env.vars["arg_"+p] = fullArgs[i]
 					if _, clash := env.vars[p]; !clash {
@@ -539,6 +542,7 @@ func (e *Engine) doCall(st *State, call *ssa.CallCommon, fnv Val, args []Val, de
 			for _, ac := range root.fc.AtCalls {
 				if ac.Kind == "set" && ac.Callee == name {
 					env := e.envFor(st, root, pre)
+					env.preferCells = true
 					for i, p := range params {
 						env.vars["arg_"+p] = fullArgs[i]
 					}
@@ -766,6 +770,14 @@ func (e *Engine) unknownCall(st *State, callee *ssa.Function, key, name string, 
 		return e.freshResult(st, sanitize(name), resType)
 	}
 	e.havocAlive(st)
+	// closures passed to an unknown callee may run: the cells they capture may change
+	for _, a := range args {
+		if a.K == KClosure {
+			for _, b := range a.Bind {
+				e.havocReachable(st, b)
+			}
+		}
+	}
 	if first {
 		st.note("first-party call without contract: " + key + " (whole heap havocked)")
 		e.havocAllHeap(st)
